@@ -186,3 +186,28 @@ Definition hashed_model (cap tg : N) (ps : list prop) (fl : list N) : list (list
   | None => []
   | Some bs => map (fun ib => map pid (members (snd ib))) (signed bs)
   end.
+
+(* ---- histories: several deliveries on ONE long-lived Executor (round 5) ----
+
+   The Executor object lives as long as the relayer; every delivery (a deposit batch, a retry, a re-scan) is
+   one call of Execute -> proposalBatches on it.  The Executor has no field that proposalBatches or Execute
+   write: the batches of a delivery depend on that delivery (its proposals in THEIR order, what the chain
+   answers about each of them now) and on the two configured numbers only - not on what was delivered or
+   found executed before.  A delivery of a history = its proposals (any order of deposit nonces, several
+   source domains; [pexec] = what the chain says at the time of this delivery) and its failing lookups. *)
+Definition delivery := (list prop * list N)%type.
+
+Definition run_history (cap tg : N) (ds : list delivery) : list (option (list batch)) :=
+  map (fun d => batches_r cap tg (fst d) (snd d)) ds.
+
+(* the judge of a history: every delivery is judged on its own, by the judge of a single delivery *)
+Fixpoint history_ok (cap tg : N) (ds : list delivery) (rs : list (option (list (list N * N)))) : bool :=
+  match ds, rs with
+  | [], [] => true
+  | d :: ds', r :: rs' => spec_ok_r cap tg (fst d) (snd d) r && history_ok cap tg ds' rs'
+  | _, _ => false
+  end.
+
+(* identity of a proposal across source domains: (source domain, deposit nonce) as one number; the runner
+   prints [pk s n] for the proposals of a delivery and for the members of the batches it observes *)
+Definition pk (s n : N) : N := s * two64 + n.
